@@ -906,7 +906,7 @@ def check_C07(tier, seed):
     batches = {
         "spec-files": vec_events,
         "files": list(gens.gen_hostile_files(rng, files, 12 if q else 40)),
-        "strings": list(gens.gen_hostile_strings(rng, 4000 if q else 80000)),
+        "strings": list(gens.gen_hostile_strings(rng, 4000 if q else 80000)) + list(gens.gen_hostile_tz_values(rng)),
         "numbers": list(gens.gen_hostile_numbers(rng, 500 if q else 10000)),
     }
     total = 0
